@@ -496,6 +496,8 @@ class PDPRuinRepairEnv(ImprovementEnvBase):
         for i in range(graph_size):
             visited_time[arange, solution[arange, pre]] = i + 1
             pre = solution[arange, pre]
+        # every node must be reached from the depot, i.e. one cycle and not several sub-tours
+        assert (visited_time > 0).all(), "Solution is not a single tour"
 
         assert (
             visited_time[:, 1 : graph_size // 2 + 1]
